@@ -101,8 +101,23 @@ func (s *sched) hook(op int, m *env.VerifMutex) bool {
 		t.aborting = true
 		panic(abortSentinel{})
 	}
-	return t.tryRes
+	res := t.tryRes
+	if op == env.VerifOpUnlock || op == env.VerifOpRUnlock {
+		// a second yield point right after the lock has been released: what a method does between
+		// releasing a lock and its next lock operation (or its return) is a step of its own, so
+		// that other threads can run in between
+		t.reqOp, t.reqM = opAfterUnlock, m
+		s.events <- evYield
+		if abort := <-t.wake; abort {
+			t.aborting = true
+			panic(abortSentinel{})
+		}
+	}
+	return res
 }
+
+// opAfterUnlock is the pseudo operation of the yield point that follows an Unlock / RUnlock.
+const opAfterUnlock = -1
 
 func (s *sched) worker(t *thr, w world) {
 	if abort := <-t.wake; abort {
@@ -248,6 +263,8 @@ func (s *sched) step(t *thr) {
 				s.logf(t, "RLock %s", m.name)
 				s.resume(t)
 			}
+		case opAfterUnlock:
+			s.resume(t)
 		case env.VerifOpUnlock:
 			if !m.wActive {
 				s.misuse = "Unlock of " + m.name + " which is not write-locked"
